@@ -67,7 +67,7 @@ def check(prog, rep):
                 tgt, val = n.targets[0].id, n.value
             elif isinstance(n, ast.AnnAssign) and isinstance(n.target, ast.Name):
                 tgt, val = n.target.id, n.value
-            if tgt and isinstance(val, (ast.Dict, ast.List, ast.Set)) and tgt != "__all__":
+            if tgt and tgt != "__all__" and (isinstance(val, (ast.Dict, ast.List, ast.Set)) or (isinstance(val, ast.Call) and (dotted(val.func) or "").split(".")[-1] in ("set", "dict", "list", "defaultdict", "OrderedDict", "deque", "Counter"))):
                 containers[(m.name, tgt)] = n
     writers = {}
     via_alias = {}
@@ -131,6 +131,34 @@ def check(prog, rep):
                 return True
         return False
 
+    # a module-level mutable container handed out by reference: whoever receives it can write into process-wide state
+    # (`vars = expr.get_variables(); vars |= more`), and every later caller of the same function sees the additions
+    for fi in prog.functions.values():
+        la_ = local_assignments(fi.node)
+        for r_ in walk_local(fi.node):
+            if isinstance(r_, ast.Return) and isinstance(r_.value, ast.Name) and (fi.module.name, r_.value.id) in containers and r_.value.id not in la_:
+                # write-only diagnostics (a counter table that nothing but this accessor reads) carry no results
+                from ..astutil import parent as _par2
+                used = False
+                for g_ in prog.functions.values():
+                    if g_.module is not fi.module or r_.value.id in local_assignments(g_.node):
+                        continue
+                    for x_ in walk_local(g_.node):
+                        if isinstance(x_, ast.Name) and x_.id == r_.value.id and isinstance(x_.ctx, ast.Load):
+                            p2 = _par2(x_)
+                            if isinstance(p2, ast.Return) and p2.value is x_:
+                                continue
+                            if isinstance(p2, ast.Subscript) and p2.value is x_ and (isinstance(p2.ctx, (ast.Store, ast.Del)) or (isinstance(_par2(p2), ast.AugAssign) and _par2(p2).target is p2)):
+                                continue
+                            if isinstance(p2, ast.Attribute) and p2.value is x_ and p2.attr in ("append", "update", "add", "clear", "extend", "copy"):
+                                continue
+                            used = True
+                if not used and writers.get((fi.module.name, r_.value.id)):
+                    continue
+                rep.ob("R14.1", f"{fi.qual.split(':')[1]}", False,
+                       f"returns the module-level container `{r_.value.id}` itself (no copy): one mutable object is handed to every caller in the process, so an in-place edit by any of them (`|=`, `.update`, `.append`) "
+                       f"shows up in the results every other model gets from {fi.name}()",
+                       loc=f"{fi.module.rel}:{r_.lineno}", detail=f"handed-out:{r_.value.id}", robust=True)
     # a mutable container as a parameter DEFAULT is created once, when the def is executed: a function that writes into
     # it and has a caller leaving the argument out keeps that container across calls, i.e. across models
     from ..inline import call_sites as _cs, bind_args as _ba
